@@ -78,7 +78,7 @@ structure St where
 /-- `_node_injection` for an arbitrary way `L` of naming expressions: `self.owner.parent.children[L e]`, on
 `AttributeError` (no parent) or `KeyError` create the node with `parent=self.owner.parent, label=L e`.
 Returns the state and the node. -/
-def injectL (L : Expr → String) (st : St) (parent : Option Nat) (e : Expr) : St × Nat :=
+def injectL {α : Type} (L : α → String) (st : St) (parent : Option Nat) (e : α) : St × Nat :=
   match parent with
   | none => ({ st with next := st.next + 1 }, st.next)
   | some par =>
@@ -324,5 +324,68 @@ def sliceExprValue {V R} (py : Py V R) (mk : Option V → Option V → Option V 
   match sliceNode f a b c with
   | .error e => .error e
   | .ok (a', b', c') => .ok (nodeFn py "GetItem" [x, mk a' b' c'])
+
+/-! ## worlds: names and ownership can be edited between writing and re-writing an expression -/
+
+/-- an operand as the user holds it: a channel (an object, identified by an id) or a raw value -/
+inductive Operand0 where
+  | chan (id : Nat)
+  | raw (tag : String) (str : String) (repr : String)
+  deriving DecidableEq, Repr
+
+/-- an expression as the user writes it: on a channel object, an operator, operand objects -/
+structure Expr0 where
+  owner : Nat
+  cls : String
+  ops : List Operand0
+  deriving DecidableEq, Repr
+
+/-- what an edit can change -/
+structure World where
+  /-- the lexical path of the expression's parent: the labels of everything ABOVE the expression (ancestors) -/
+  path : String
+  /-- the scoped label (`<node label>__<channel label>`) of every channel -/
+  name : Nat → String
+
+def Expr0.chans (e : Expr0) : List Nat :=
+  e.owner :: e.ops.filterMap fun | .chan i => some i | .raw _ _ _ => none
+
+/-- the expression with the names the world currently gives to its channels -/
+def render (w : World) (e : Expr0) : Expr :=
+  { owner := e.owner, slabel := w.name e.owner, cls := e.cls,
+    ops := e.ops.map fun | .chan i => Operand.chan i (w.name i) | .raw t s r => Operand.raw t s r }
+
+/-- the label in /repo: scoped labels of the channels, class name, operand keys -/
+def labelScoped (H : Key → String) (w : World) (e : Expr0) : String := label H .repaired (render w e)
+
+/-- keyed on the FULL lexical path of the channels instead (`/wf/m/a.user_input`) -/
+def labelFull (H : Key → String) (w : World) (e : Expr0) : String :=
+  label H .repaired (render { w with name := fun i => w.path ++ "/" ++ w.name i } e)
+
+/-- keyed on the channel objects themselves (what finding the node by its wiring amounts to) -/
+def labelIdent (H : Key → String) (_w : World) (e : Expr0) : String :=
+  label H .repaired (render { path := "", name := fun i => "#" ++ toString i } e)
+
+/-- a history in one parent: expressions are written, the world is edited -/
+inductive Step (α W : Type) where
+  | write (e : α)
+  | edit (f : W → W)
+
+def runSteps {α W : Type} (L : W → α → String) (par : Nat) : W → St → List (Step α W) → W × St
+  | w, st, [] => (w, st)
+  | w, st, .write e :: r => runSteps L par w (injectL (L w) st (some par) e).1 r
+  | w, st, .edit f :: r => runSteps L par (f w) st r
+
+/-- every edit of the history leaves the label of `e` as it is -/
+def Fixes {α W : Type} (L : W → α → String) (e : α) : W → List (Step α W) → Prop
+  | _, [] => True
+  | w, .write _ :: r => Fixes L e w r
+  | w, .edit f :: r => L (f w) e = L w e ∧ Fixes L e (f w) r
+
+/-- every edit of the history is of an allowed kind -/
+def EditsIn {α W : Type} (ok : (W → W) → Prop) : List (Step α W) → Prop
+  | [] => True
+  | .write _ :: r => EditsIn ok r
+  | .edit f :: r => ok f ∧ EditsIn ok r
 
 end PwVerif.Inject
